@@ -11,3 +11,5 @@ import BddVerif.Props.C02
 #print axioms B.Props.C02.not_canonical
 #print axioms B.Props.C02.built_canonical
 #print axioms B.Props.C02.built_unique
+#print axioms B.Props.C02.built_same_observables
+#print axioms B.Props.C02.built_passes_check
